@@ -157,7 +157,9 @@ class Driver:
         try:
             code = self.p.wait(timeout=10)
             if self.p.stderr is not None:
-                err = self.p.stderr.read().decode("utf8", "replace")[-4000:]
+                err = self.p.stderr.read().decode("utf8", "replace")
+                if len(err) > 5000:
+                    err = err[:2000] + "\n...[cut]...\n" + err[-2500:]
         except Exception:
             try:
                 self.p.kill()
